@@ -31,6 +31,10 @@ if [ $NEEDS_BUILD = 1 ]; then
 	export VERIF_WORK="$W"
 fi
 H=$("$VERIF/build.sh" --hash)
+if [ $NEEDS_BUILD = 1 ]; then export DDPPATH="$VERIF_WORK/ddp" LOCPATH="$VERIF_WORK/locale"
+else # frontend-only checks still need the Duden to resolve `Binde "Duden/..." ein`
+	export DDPPATH="$VERIF/.work/ddppath-$H"; mkdir -p "$DDPPATH"; ln -sfn "$VERIF_REPO/lib/stdlib/Duden" "$DDPPATH/Duden"
+fi
 BIN="$VERIF/.work/bin"; mkdir -p "$BIN"
 TESTBIN="$BIN/$pkg.$H.test"
 ( cd "$VERIF/harness" && $GO test -modfile="$MODFILE" -tags verif -c -o "$TESTBIN" "./checks/$pkg" ) >&2 || { echo "INCONCLUSIVE: harness build failed" >&2; exit 2; }
